@@ -331,6 +331,12 @@ def replay_case(check: Check, case):
         if sub:
             break
     if sub is None:
+        # witness recorded by another check sharing the same world: match on the world prefix
+        for sb in check.subspaces("quick"):
+            if sb.label.split("/")[0] == case["sub"].split("/")[0]:
+                sub = sb
+                break
+    if sub is None:
         raise HarnessError(f"unknown subspace {case['sub']}")
     scen = sub.world.scenario()
     ctx = Ctx(sub.world, sub.payload_factory)
